@@ -40,6 +40,8 @@ func init() {
 		Rule: "each run draws ONE component (dispose.Dispose/ResourceBase/ManagerBase; dispose.ResourceManager; stream.StreamProcessor over a simnet link with a reader inside ReadPacket; memory.Storage with optional cleanup goroutine; client tunnel.Tunnel + real DefaultTunnelManager between two simnet links; server tunnel.Bridge with real TCPTunnelConnections, Start() and a cloud-control double), " +
 			"then draws 2-5 closer tasks (Close variant, start delay in scheduler yields and/or simulated time), the component's own completion path (peer EOF, reset, idle timeout by a 5 min clock advance, peer-closed notification, parent-context cancel, manager Close, target never arrives), its own START-UP racing the closers (Tunnel.Start of an already registered tunnel, Bridge.Start, StartCleanup), concurrent users (packets in flight, storage operations, AddCleanHandler/Register) and 1-3 late operations after close (incl. Start). " +
 			"The StreamProcessor is built over one connection or over separate receive/send endpoints (Close() error or Close() signature) whose Close may report an injected error; each endpoint must still be closed exactly once and the blocked reader released. The tunnel's goroutines must be gone while its manager (parent context) is still alive. " +
+			"ResourceManager resources take drawn amounts of simulated time to dispose and DisposeWithTimeout callers draw timeouts around them, so a timeout really fires while the disposal continues in the background (its helper goroutine must end). " +
+			"After the bridge's first Close a reconnecting source and/or a late target connection may be attached (the bridge is still registered then); the bridge's last Close must close every connection it was ever handed and release its remote end. The cloud-control double may be slower than the bridge's own final-report timeout. " +
 			"Interleavings come from the seeded scheduler at statement granularity inside the anchored files. A run is non-trivial when two Close calls overlapped in time, or a Close overlapped an in-flight user operation / completion path of the component (measured with global event stamps); distinct = distinct schedule hash among those.",
 		Real: []string{"internal/core/dispose (Dispose, ResourceBase, ManagerBase, ResourceManager)", "internal/stream StreamProcessor (+ utils.BufferManager/BufferPool)", "internal/core/storage/memory Storage (all ops, StartCleanup/StopCleanup)",
 			"internal/client/tunnel Tunnel + DefaultTunnelManager", "internal/utils/iocopy Bidirectional + readWriteCloser", "internal/protocol/session/tunnel Bridge (Start, CopyWithControl, Close, periodic/final traffic report)", "internal/protocol/session/connection TCPTunnelConnection", "internal/stream/compression (compressed packets written while closing)"},
@@ -428,12 +430,16 @@ type c16res struct {
 	n      int
 	yields int
 	fail   bool
+	dur    time.Duration // simulated time the disposal takes (a flush, a Close waiting for a peer)
 }
 
 func (r *c16res) Dispose() error {
 	r.n++
 	for i := 0; i < r.yields; i++ {
 		r.w.Yield("c16.res.dispose")
+	}
+	if r.dur > 0 {
+		r.w.Sleep(r.dur)
 	}
 	if r.fail {
 		return errors.New("injected dispose error")
@@ -450,29 +456,45 @@ func c16ResMgr(w *simrt.World) {
 	failMask := c.Intn(1<<nRes, "resmgr.failmask")
 	plans := c16Plans(c, nClosers, "resmgr.closer", nil, 3)
 	regPlans := c16Plans(c, nReg, "resmgr.reg", nil, 2)
+	// how long each resource's disposal takes on the simulated clock, and the timeouts of the DisposeWithTimeout callers:
+	// a timeout only fires when a disposal really outlives it (a timer cannot win against work that takes no simulated time)
+	durs := make([]time.Duration, nRes)
+	for i := range durs {
+		durs[i] = []time.Duration{0, 0, 50 * time.Millisecond, 3 * time.Second, 90 * time.Second}[c.Intn(5, "resmgr.dispose.duration")]
+	}
+	timeouts := make([]time.Duration, nClosers)
+	for i := range timeouts {
+		timeouts[i] = []time.Duration{time.Nanosecond, 700 * time.Millisecond, 20 * time.Second, 10 * time.Minute}[c.Intn(4, "resmgr.timeout")]
+	}
 	w.Probe("component.resource-manager")
-	w.Sample(fmt.Sprintf("ResourceManager resources=%d failmask=%b closers=%d registrars=%d disposeYields=%d", nRes, failMask, nClosers, nReg, yields))
+	w.Sample(fmt.Sprintf("ResourceManager resources=%d failmask=%b disposeDurations=%v closers=%d timeouts=%v registrars=%d disposeYields=%d", nRes, failMask, durs, nClosers, timeouts, nReg, yields))
 	w.State(fmt.Sprintf("resmgr/r%d/c%d/g%d", nRes, nClosers, nReg))
 
 	rm := dispose.NewResourceManager()
 	var pre []*c16res
 	for i := 0; i < nRes; i++ {
-		r := &c16res{w: w, name: fmt.Sprintf("r%d", i), yields: yields, fail: failMask&(1<<i) != 0}
+		r := &c16res{w: w, name: fmt.Sprintf("r%d", i), yields: yields, fail: failMask&(1<<i) != 0, dur: durs[i]}
 		pre = append(pre, r)
 		if err := rm.Register(r.name, r); err != nil {
 			w.Violationf("C16:resmgr:register-failed", "%v", err)
 		}
 	}
 	sp := &c16spans{}
+	timedOut := false
 	var tasks []*simrt.Task
 	for i := 0; i < nClosers; i++ {
 		p := plans[i]
 		tasks = append(tasks, c16Actor(w, sp, fmt.Sprintf("closer%d", i), p, func() {
 			switch p.variant {
-			case 1:
-				_ = rm.DisposeWithTimeout(time.Minute)
-			case 2:
-				_ = rm.DisposeWithTimeout(time.Nanosecond) // times out at once; the disposal goes on in the background
+			case 1, 2:
+				// the server's shutdown path; when the timeout wins, the disposal goes on in the background
+				res := rm.DisposeWithTimeout(timeouts[i])
+				for _, e := range res.Errors {
+					if e.ResourceName == "timeout" {
+						w.Probe("resmgr.dispose-timeout-fired")
+						timedOut = true
+					}
+				}
 			default:
 				_ = rm.DisposeAll()
 			}
@@ -495,7 +517,10 @@ func c16ResMgr(w *simrt.World) {
 		}))
 	}
 	c16Join(tasks)
-	w.Sleep(time.Second) // background DisposeAll of a timed-out DisposeWithTimeout
+	w.Sleep(10 * time.Minute) // the background DisposeAll of a timed-out DisposeWithTimeout finishes its slow resources
+	if timedOut {
+		w.Nontrivial()
+	}
 	if sp.overlap("closer", "closer") || sp.overlap("closer", "registrar") {
 		w.Nontrivial()
 		w.Probe("resmgr.overlap")
@@ -1283,10 +1308,15 @@ type c16cloud struct {
 	updates int
 	failGet int // fail the k-th GetPortMapping (1-based), 0 = never
 	failed  bool
+	delay   time.Duration // latency of GetPortMapping (a slow store): longer than the bridge's own final-report timeout
 }
 
 func (cc *c16cloud) GetPortMapping(id string) (*models.PortMapping, error) {
 	cc.w.Yield("c16.cloud.get")
+	if cc.delay > 0 {
+		cc.w.Fault("cloud.slow")
+		cc.w.Sleep(cc.delay)
+	}
 	cc.mu.Lock()
 	defer cc.mu.Unlock()
 	cc.gets++
@@ -1340,13 +1370,20 @@ func c16Bridge(w *simrt.World) {
 		failGet = 1 + c.Intn(3, "br.cloud.failat")
 	}
 	tgtPlan := c16Plans(c, 1, "br.target.arrive", nil, 0)[0]
+	var cloudDelay time.Duration
+	if c.Chance(1, 6, "br.cloud.slow") {
+		cloudDelay = 7 * time.Second
+	}
+	// connections handed to the bridge after its first Close (the bridge stays registered until its lifecycle goroutine
+	// has removed it, so a reconnecting source or a late target can still be attached): 1 source reconnect, 2 late target, 3 both
+	lateAttach := c.Intn(4, "br.late-attach")
 	nLate := 1 + c.Intn(3, "br.nlate")
 	lateOps := make([]int, nLate)
 	for i := range lateOps {
 		lateOps[i] = c.Intn(7, "br.late.op")
 	}
 	w.Probe("component.server-bridge")
-	w.Sample(fmt.Sprintf("server Bridge closers=%d targetMode=%d completion=%d srcChunks=%d tgtChunks=%d bandwidth=%d cloudFailAt=%d closerSleeps=%v late=%v", nClosers, targetMode, completion, nSrc, nTgt, bw, failGet, sleeps, lateOps))
+	w.Sample(fmt.Sprintf("server Bridge closers=%d targetMode=%d completion=%d srcChunks=%d tgtChunks=%d bandwidth=%d cloudFailAt=%d closerSleeps=%v late=%v lateAttach=%d cloudDelay=%v", nClosers, targetMode, completion, nSrc, nTgt, bw, failGet, sleeps, lateOps, lateAttach, cloudDelay))
 	w.State(fmt.Sprintf("bridge/t%d/comp%d/c%d", targetMode, completion, nClosers))
 
 	ctx, cancel := context.WithCancel(w.Ctx)
@@ -1357,7 +1394,7 @@ func c16Bridge(w *simrt.World) {
 	tgtSP := stream.NewStreamProcessor(tgtSrv, tgtSrv, ctx)
 	srcTC := &c16tconn{TCPTunnelConnection: connection.NewTCPTunnelConnection("conn-src", srcSrv, 7, "m1", "t1", srcSP)}
 	tgtTC := &c16tconn{TCPTunnelConnection: connection.NewTCPTunnelConnection("conn-tgt", tgtSrv, 8, "m1", "t1", tgtSP)}
-	cc := &c16cloud{w: w, failGet: failGet}
+	cc := &c16cloud{w: w, failGet: failGet, delay: cloudDelay}
 	cc.mapping.ID = "m1"
 	br := srvtunnel.NewBridge(ctx, &srvtunnel.BridgeConfig{TunnelID: "t1", MappingID: "m1", ClientID: 7, SourceTunnelConn: srcTC, BandwidthLimit: bw, CloudControl: cc})
 	handlerRuns := 0
@@ -1514,6 +1551,55 @@ func c16Bridge(w *simrt.World) {
 			}
 		})
 	}
+	// connections attached to the already closed bridge, then the last Close of its life (the deferred Close of
+	// SessionManager.runBridgeLifecycle): whatever the bridge was handed must be released by then
+	type c16attached struct {
+		name  string
+		tc    *c16tconn
+		drain *simrt.Task
+	}
+	var attached []c16attached
+	tgtAttached := targetMode <= 1 || targetMode == 3
+	var lateEnds []*simnet.Conn
+	newConn := func(name string, clientID int64) c16attached {
+		cliEnd, srvEnd := simnet.NewLink(w, simnet.LinkConfig{NameA: name + "-cli", NameB: name + "-srv"})
+		spx := stream.NewStreamProcessor(srvEnd, srvEnd, ctx)
+		tc := &c16tconn{TCPTunnelConnection: connection.NewTCPTunnelConnection(name, srvEnd, clientID, "m1", "t1", spx)}
+		lateEnds = append(lateEnds, cliEnd, srvEnd)
+		return c16attached{name: name, tc: tc, drain: drain(name+"-cli-drain", cliEnd)}
+	}
+	if lateAttach&1 != 0 {
+		a := newConn("conn-src-reconnect", 7)
+		c16Guard(w, "C16:bridge:panic-after-close:SetSourceConnection", func() { br.SetSourceConnection(a.tc) })
+		attached = append(attached, a)
+		w.Probe("bridge.late-source-reconnect")
+	}
+	if lateAttach&2 != 0 {
+		a := newConn("conn-tgt-late", 8)
+		c16Guard(w, "C16:bridge:panic-after-close:SetTargetConnection", func() { br.SetTargetConnection(a.tc) })
+		attached = append(attached, a)
+		w.Probe("bridge.late-target")
+	}
+	c16Guard(w, "C16:bridge:panic:Close", func() { _ = br.Close() })
+	for _, a := range attached {
+		if a.tc.closes == 0 {
+			w.Violationf("C16:bridge:attached-connection-never-closed", "tunnel connection %s was attached to the bridge after an earlier Close; the bridge's last Close returned but never closed it", a.name)
+		} else if a.tc.closes > 1 {
+			w.Violationf("C16:bridge:tunnel-connection-closed-more-than-once", "late-attached tunnel connection %s was closed %d times", a.name, a.tc.closes)
+		}
+		if !c16Bounded(w, a.drain, 2*time.Second) {
+			w.Violationf("C16:bridge:peer-of-attached-connection-still-blocked", "the remote end of %s (attached after an earlier Close) is still blocked in Read 2s after the bridge's last Close returned", a.name)
+		}
+	}
+	lateNilTarget := false // SetTargetConnection(nil) as a late operation drops the bridge's reference without closing
+	for _, op := range lateOps {
+		if op == 1 {
+			lateNilTarget = true
+		}
+	}
+	if tgtAttached && tgtTC.closes == 0 && lateAttach&2 == 0 && !lateNilTarget {
+		w.Violationf("C16:bridge:attached-connection-never-closed", "the target tunnel connection was handed to the bridge (targetMode=%d) but the bridge's last Close returned without closing it", targetMode)
+	}
 	if handlerRuns > 1 {
 		w.Violationf("C16:bridge:handler-ran-more-than-once", "clean handler ran %d times after late operations", handlerRuns)
 	}
@@ -1528,12 +1614,18 @@ func c16Bridge(w *simrt.World) {
 	tgtCli.Close()
 	tgtSrv.Close()
 	tgtSP.Close()
+	for _, e := range lateEnds {
+		e.Close()
+	}
 	cancel()
 	srcT.Wait()
 	tgtT.Wait()
 	srcDrain.Wait()
 	tgtDrain.Wait()
-	c16LeakCheck(w, "bridge", 10*time.Second)
+	for _, a := range attached {
+		a.drain.Wait()
+	}
+	c16LeakCheck(w, "bridge", 30*time.Second)
 	// traffic totals: what the cloud-control mapping accumulated against what the bridge counted as forwarded
 	sent, recv := br.GetBytesSent(), br.GetBytesReceived()
 	cc.mu.Lock()
